@@ -28,6 +28,7 @@ func init() {
 			"definition context x call context: a function (defun, global lambda, labels, closure made by an earlier request or returned to the host, closure stored in a map, callback of map/foldl/apply, macro body; 20 body shapes) is defined in a fresh runtime under each of {no context, context.Background(), a live cancelable context, a context cancelled once the phase has returned, a distant deadline, a root WithContext} through each loading entry point, then run as a request through each *Context entry point under a DIFFERENT context (scripted, or a real WithCancel / child-of-cancelled-parent / WithDeadline context cancelled by the step hook) cancelled at sampled steps k: the trace is the uncancelled request cut at k-1, ends in context-cancelled at step k; " +
 			"host-started calls: once per worker every Go-implemented function, special operator and macro of the registry is called with argument vectors from a small pool (probe-carrying callback, list, vector, int, type symbol, source text, quoted form, map; forms for operators and macros) and kept when it succeeds and the probe fired (the builtin re-entered the evaluator); calls whose value is a function (compose, flip, curry-function, expr, lambda) give derived callees; each kept call is made twice in one runtime through FunCall / FunCallContext / SpecialOpCall / MacroCall+Eval of the expansion / EvalSExpr, unlimited (N and trace stamped by the lifetime counter), under stratified budgets n and cancellation indices k with the oracles above, plus: the per-evaluation counter starts once per top-level entry; " +
 			"limits reconfigured on a live runtime: two histories per case, each on one runtime for one limit kind (nesting, physical height, tail iterations, macro expansions, step budget, context): 5-10 phases that set the limit through a documented route (With* at InitializeUserEnv, the Config applied later, the exported field assigned before InitializeUserEnv or after 0-3 evaluations; WithMaxSteps; root WithContext / per-call context) to a value chosen relative to the need of the phase's program as measured by the hooks on a twin at the defaults (1-4 below, exact, 1-3 above, far above, 0, negative where documented; needs between the old and the new maximum), then run it: hooks compare height / nesting with the maximum read back at that moment, need above the maximum gives the limit's error (uncaught / handler-bind / ignore-errors) and a usable runtime, need within it the twin's outcome, budget and context the twin's stamped trace cut at n (k-1); " +
+			"long evaluations: a long-running probe-instrumented program (dotimes with and without body, tail and mutual tail loops, map / foldl over long lists, a loop inside nested loads and loads inside a loop, nested loops, repeated recursion, thousands of top-level forms, loops under handler-bind / ignore-errors, closures and macros called in a loop), sized by calibration to a step count drawn from one magnitude 2^6 .. 2^18, runs once under a never-cancelled context through one of the *Context entry points or a root WithContext (N, stamped trace), then under a context cancelled at step k (scripted k-th poll; WithCancel / child of a cancelled parent / WithDeadline cancelled by the step hook at k), under a real context cancelled by the host builtin it calls as its j-th probe, and under budgets n, for k and n stratified over the magnitudes up to N, around powers of two and multiples of 64 / 100 / 1000 / 1024 / 4096 (a-1, a, a+1), near N and N-1 / N / N+1: the trace is the reference cut at k-1 (n), the run ends in context-cancelled with the counter reading k (the step after the builtin's; step-limit-exceeded at n+1), a sufficient budget changes nothing; " +
 			"physical-height, eval-nesting, tail-iteration and macro-expansion limits are enumerated 1..40 (1..20 for macros) against recursion depths around each bound with hook assertions on every push and eval entry. distinct_nontrivial counts distinct (program template, limit kind, limit value bucket, outcome) combinations",
 		Assumptions: []string{
 			"the unlimited run is made under a never-cancelled context so that steps are counted (the step counter is only live when a context or a budget is configured)",
@@ -252,6 +253,7 @@ func c04Run(w *fw.W, idx int) {
 		c04CrossCtx(w, idx)
 		c04HostCalls(w, idx)
 		c04Reconf(w, idx)
+		c04Long(w, idx)
 	}
 }
 
